@@ -57,6 +57,23 @@ def regex_obligations(rep: Report):
             rep.ok(oid, "lemma", desc, "rx-syntactic", function="peg_parser/tokenize.py:<patterns>")
 
 
+def expr_name_obligation(rep: Report):
+    """Parser.get_expr_name raises ValueError for a node class it has no name for; that exception would escape from the diagnostic pass.  Every
+    expression class of the running CPython's ASDL that can stand where a target is expected is named (Constant is handled before the table;
+    Slice only occurs inside a Subscript, never as the target itself)."""
+    rc, out, err = run_py("harness/expr_names.py", [], timeout=60)
+    desc = "get_expr_name names every expression node class of the running CPython (no ValueError out of the invalid-target diagnostics)"
+    if rc != 0:
+        rep.undecided("C03.expr_names.total", "lemma", desc, "cpython-exec", err[-400:])
+        return
+    d = json_from(out)
+    missing = sorted(set(d["expr_classes"]) - set(d["mapped"]) - {"Constant", "Slice"})
+    if missing:
+        rep.fail("C03.expr_names.total", "lemma", desc, "syntactic", f"no name for {missing}", witness=missing, function="peg_parser/subheader.py:Parser.get_expr_name")
+    else:
+        rep.ok("C03.expr_names.total", "lemma", desc + f" ({len(d['expr_classes'])} classes)", "syntactic", function="peg_parser/subheader.py:Parser.get_expr_name")
+
+
 def run(rep: Report):
     rep.trust("CPython ast", "z3 / cvc5", "engine/pyvc", "engine/pegir + engine/pegfacts")
     rep.assume("A1 Python semantics of the supported subset", "A3 readline returns '' after finitely many calls (finite token stream)",
@@ -69,6 +86,7 @@ def run(rep: Report):
     eof_obligations(rep, ir, "C03")
     progress_obligations(rep, ir, "C03")
     regex_obligations(rep)
+    expr_name_obligation(rep)
     # ---- bounded stand-in
     t0 = time.time()
     n = 6000 if rep.tier == "quick" else 60000
